@@ -876,7 +876,12 @@ class HeapInterp:
         m = getattr(self, "e_" + type(e).__name__, None)
         if m is None:
             raise AnalysisError(f"reader interpreter: expression {type(e).__name__} at {fi.loc(e)} not supported")
-        return m(e, env, pc, fi)
+        v = m(e, env, pc, fi)
+        nz = getattr(self, "_nonzero_exprs", None)
+        if nz and isinstance(e, (ast.Subscript, ast.Attribute, ast.Call)) and v is not None and v.kind in ("scalar", "const") and ZERO in v.t and any(norm(e) in s_ for s_ in nz):
+            # the same expression was just found different from 0 by the filter of the comprehension that is being evaluated
+            v = Obj("scalar", v.t - {ZERO})
+        return v
 
     def lift(self, v: Any, depth=0) -> Obj:
         """python constant -> abstract value"""
@@ -1321,11 +1326,26 @@ class HeapInterp:
                 self.assign(g.target, el, env2, E, fr, e)
                 cur = env2
                 pc3 = pc2
+                proven = set()
                 for c in g.ifs:
                     cv = self.ev(c, cur, pc3, fi)
                     pc3 = pc3 | prov(cv)
                     cur, _ = self.refine(c, cur, pc3, fi)
-                rec(i + 1, cur, pc3)
+                    # `<expr> != 0` (also as the last operand of an `and`) for an expression that is not a plain name
+                    for t_ in (c.values if isinstance(c, ast.BoolOp) and isinstance(c.op, ast.And) else [c]):
+                        if isinstance(t_, ast.Compare) and len(t_.ops) == 1 and isinstance(t_.ops[0], ast.NotEq) and isinstance(t_.comparators[0], ast.Constant) \
+                                and t_.comparators[0].value == 0 and not isinstance(t_.left, (ast.Name, ast.NamedExpr)):
+                            proven.add(norm(t_.left))
+                if proven:
+                    if not hasattr(self, "_nonzero_exprs"):
+                        self._nonzero_exprs = []
+                    self._nonzero_exprs.append(proven)
+                    try:
+                        rec(i + 1, cur, pc3)
+                    finally:
+                        self._nonzero_exprs.pop()
+                else:
+                    rec(i + 1, cur, pc3)
         rec(0, dict(env), pc)
 
     def e_ListComp(self, e, env, pc, fi):
